@@ -152,12 +152,14 @@ def run(ctx):
     quick = ctx.tier == "quick"
     jobs = []
     two = ["fresh-home-different-gtf", "fresh-home-same-gtf", "existing-config-different-gtf", "cache-hit-vs-miss", "clean-start-vs-hit"]
+    # thorough: bound 4 needs ~3 min per fresh-home scenario (5*10^4 executions, 3*10^5 states); unbounded exploration of the
+    # fresh-home scenarios did not finish within 50 minutes and is therefore not claimed
     for n in two:
-        jobs.append((n, 3 if quick else None, 60000 if quick else 1500000))
-    jobs.append(("mapper-caches", 2 if quick else 4, 60000 if quick else 1500000))
-    jobs.append(("three-processes", 1 if quick else 2, 60000 if quick else 1500000))
+        jobs.append((n, 3 if quick else 4, 60000 if quick else 400000))
+    jobs.append(("mapper-caches", 2 if quick else 3, 60000 if quick else 400000))
+    jobs.append(("three-processes", 1 if quick else 2, 60000 if quick else 400000))
     if not quick:
-        jobs.append(("three-fresh", 2, 1500000))
+        jobs.append(("three-fresh", 1, 400000))
     tot = {"executions": 0, "states": 0, "transitions": 0, "complete": 0}
     per = {}
     exhaustive = True
